@@ -31,7 +31,7 @@
 //        quick tier, 1 in 7 in the thorough tier) + 300 pseudo-random files (1 500 thorough, see LALR below) + the example files of the repository. Layouts: 7. get_grammar_hash: every text of <= 4 lines
 //        (<= 5 thorough) over a 10-line alphabet, LF and CRLF, with and without final terminator. Compile check: 5 grammar shapes x 34 namings
 //        (one internal name at a time on every user-chosen position, then all at once) + the valid grammars of the family.
-//        Validation: the family + every single renaming `identifier j := identifier i` and every first-letter case flip in 7 base files (about 2 000 files with
+//        Validation: the family + every single renaming `identifier j := identifier i` and every first-letter case flip in 8 base files (about 2 000 files with
 //        0..4 simultaneous violations).
 //        LALR: the well-formed files of the family, of the enumeration (right-hand sides <= 1: all; <= 2: 1 in 97, thorough 1 in 7) and 10 textbook grammars
 //        (LALR-not-SLR, LR(1)-not-LALR, dangling else, expression grammars, nullable chains) + 1 200 pseudo-random files (6 000 thorough) over 2..4
@@ -452,7 +452,10 @@ mod __vx_leafcheck {
             if idx.len() > depth { break; }
         }
         // the header of every emitted text reads back the digest of exactly the source it was generated from
-        for t in all_texts() {
+        let mut sources = all_texts();
+        // the digest is that of the EXACT source: leading / trailing blanks, line ends and comments included
+        for c in VALID { for l in 1..LAYOUTS { sources.push(render(&tokens(c), l).0); } }
+        for t in sources {
             if let Ok(out) = generate(&t) {
                 let want: String = sha256_reference(t.as_bytes()).iter().map(|b| format!("{:02x}", b)).collect();
                 let got = get_grammar_hash(out.as_ref());
@@ -1105,6 +1108,7 @@ mod __vx_leafcheck {
         "start S enum S { A B ( $X ) } enum T { A B ( $X ) }",
         "struct S ( $X ) enum E { V ( S ) W ( E ) } terminal T { $X : ( ) }",
         "start S enum S { A ( $X $X ) B ( $X ) C ( _ : $X ) D { p : $X q : $X } } terminal T { $X : ( ) }",
+        "start S enum S { Neg { _ : $Minus val : $Num } Lit { val : $Num } Par ( _ : $L S _ : $R ) Bare ( S ) } terminal T { $Minus : ( ) $Num : ( ) $L : ( ) $R : ( ) }",
     ];
     fn validation_family() -> Vec<Vec<String>> {
         let mut fam: Vec<Vec<String>> = VALID.iter().chain(CONFLICTING).chain(INVALID).map(|c| tokens(c)).collect();
